@@ -104,9 +104,13 @@ Fixpoint wfb (st : bool) (t : tree) : bool :=
   end.
 
 (* Name resolution of eval(code, env, locals): locals, then globals (env), then builtins. *)
-Inductive scope := Local | Env | Builtin.
+Inductive scope := Local | Env | Builtin | Unbound.
 Definition resolve (locals env : list string) (n : string) : scope :=
   if mem n locals then Local else if mem n env then Env else Builtin.
+(* eval(code, env, locals): a name found neither among the supplied variables nor in env is looked up in env["__builtins__"];
+   when env carries an EMPTY __builtins__ (blocked) the lookup fails with NameError, otherwise the interpreter's builtins answer *)
+Definition resolve_b (blocked : bool) (locals env : list string) (n : string) : scope :=
+  match resolve locals env n with Builtin => if blocked then Unbound else Builtin | s => s end.
 
 (* every identifier the compiled code will look up *)
 Definition lookups (t : tree) : list string :=
